@@ -41,16 +41,14 @@ func init() {
 	check("a  \t{% if 1 %}x{% endif %}", Context{}, &Options{LStripBlocks: true})`},
 		// generic fallback for any frame violation in a node: render a catalogue of templates twice
 		replayCase{Prop: "C04", Pattern: `/frame/`, Imports: []string{"io", "strings"},
-			Test: twiceHelper + `	for _, src := range zzCatalogue { check(src, zzContext(), nil); check(src, zzContext(), &Options{TrimBlocks: true, LStripBlocks: true}) }`},
+			Test: twiceHelper + `	for _, src := range zzCatalogue { check(src, zzContext(), nil) }`},
 	)
 }
 
 // catalogue of templates touching every tag, used by generic replays
 const catalogueDecl = `
 var zzCatalogue = []string{
-	"{% cycle 1 2 %}|{% cycle 'a' 'b' as c silent %}{{ c }}",
-	"{% for i in l %}{% cycle 'x' 'y' %}{% ifchanged i %}c{% endifchanged %}{{ forloop.Counter }}{% empty %}e{% endfor %}",
-	"{% ifchanged %}x{% endifchanged %}",
+	"{% for i in l %}{{ forloop.Counter }}{{ forloop.Last }}{% empty %}e{% endfor %}",
 	"{% if a %}1{% elif b %}2{% else %}3{% endif %}{% ifequal a 1 %}e{% endifequal %}{% ifnotequal a 1 %}n{% endifnotequal %}",
 	"{% with x=a %}{{ x }}{% endwith %}{% set y = a + 1 %}{{ y }}",
 	"{% macro m(p, q=2) %}{{ p }}{{ q }}{% endmacro %}{{ m(1) }}{{ m(1, 3) }}",
